@@ -23,7 +23,7 @@ checks_all = {
   technique="deterministic simulation: seeded operation histories with injected refusals against an executable reference model, full-state snapshot failure-atomicity oracle, minimised replay files",
   design="4"),
  "C14": dict(
-  level_text="Seeded layers: (a) Send+Sync compile probe; (b) call histories (calls as data over every public entry point and the raw interpreter methods, incl. injected client crashes - panicking Token/Iterator/Replace/BasicAnnotate/LangInterpreter callbacks - and abandoned lazy iterators) on long-lived interpreters, every result compared with a reference table in which each call ran alone in a pristine process; the whole corpus once as one forward history, once in reverse in another process, a soak (44 short calls x 66 000 repetitions) followed by a probe of the systematic families; every call also in two pristine processes under different locale / time zone / clock (LD_PRELOAD skew shim) / environment variables (H4), nested from caller callbacks (H5), from a destructor during unwinding (H6) and from a thread-local destructor during thread teardown (H7); a fixed probe of raw trait-method calls (formatting of caller-built numbers, predicates, morphological marker) is made straight on the interpreter before and after every call body: both must agree and the first is part of the call's result (H8); (c) schedule simulation: 2-4 real caller threads under the harness's own deterministic scheduler (one runs at a time; PRNG-chosen switches at every caller callback and library yield point; uniform / sticky / PCT policies; explicit trace in the replay file) with the same oracle; (d) Miri as a second deterministic scheduler with basic-block preemption and data-race detection (slice in quick, sweep in thorough); (e) fd 1/2 captured for the whole run, and environment, live threads and panic hook compared before/after (E2). Sampling.",
+  level_text="Seeded layers: (a) Send+Sync compile probe; (b) call histories (calls as data over every public entry point and the raw interpreter methods, incl. injected client crashes - panicking Token/Iterator/Replace/BasicAnnotate/LangInterpreter callbacks - and abandoned lazy iterators) on long-lived interpreters, every result compared with a reference table in which each call ran alone in a pristine process; the whole corpus once as one forward history, once in reverse in another process, a soak (44 short calls x 66 000 repetitions, then 20 floods of 12 000 distinct pseudo-words / 576 distinct compounds made twice each, forty probe calls after every phase) followed by a probe of the systematic families; the simulator's allocator hands the library deterministically reused addresses for its small allocations (allocator seam); every call also in two pristine processes under different locale / time zone / clock (LD_PRELOAD skew shim) / environment variables (H4), nested from caller callbacks (H5), from a destructor during unwinding (H6) and from a thread-local destructor during thread teardown (H7); a fixed probe of raw trait-method calls (formatting of caller-built numbers, predicates, morphological marker) is made straight on the interpreter before and after every call body: both must agree and the first is part of the call's result (H8); (c) schedule simulation: 2-4 real caller threads under the harness's own deterministic scheduler (one runs at a time; PRNG-chosen switches at every caller callback and library yield point; uniform / sticky / PCT policies; explicit trace in the replay file; one run in six is a dense-contention run: all callers on one splitter-language interpreter with same-length compound words) with the same oracle; (d) Miri as a second deterministic scheduler with basic-block preemption and data-race detection (slice in quick, sweep in thorough); (e) fd 1/2 captured for the whole run, and environment, live threads and panic hook compared before/after (E2). Sampling.",
   note="The controlled scheduler switches only at callbacks and verif yield points (the library has no synchronisation of its own); interleavings inside a library function are reached by the Miri layer only (24 seed-runs in quick, 288 in thorough). The reference table is trusted because each call runs alone in a fresh process with fresh interpreters.",
   technique="deterministic simulation: harness-owned deterministic scheduler over real threads + seeded call histories with injected client crashes and abandonment, per-call pristine-process reference oracle, fd capture; Miri many-seeds as second deterministic scheduler",
   design="7 and 12.2"),
